@@ -8,6 +8,11 @@ from .src import Source
 
 # (name, program text defining RESULT or raising, expected repr of RESULT / "raise <Exc>")
 PROGRAMS = [
+    ("nan-is-identical-to-itself-but-not-equal", '''
+nan = float("nan")
+box = [nan]
+RESULT = (nan == nan, nan is nan, nan != nan, nan in box, box.count(nan), box == [nan], 1 == 1.0, 1 is 1.0)
+''', "(False, True, True, True, 1, True, True, False)"),
     ("isinstance-against-abstract-base-classes", '''
 import types
 from collections.abc import Iterable, Mapping, MutableMapping, Sized, Sequence, Hashable
